@@ -7,7 +7,7 @@
 (* the routine may write, and the returned value.  While doing so it checks   *)
 (* the theorems that make the expectation meaningful (write footprint,        *)
 (* poison independence, exactness, defining property of the solves).          *)
-EXTENDS BlasRef, TLC, Json
+EXTENDS BlasRef, BlasWrap, TLC, Json
 
 CONSTANTS Routines,   \* routine families to enumerate (subset of AllRoutines)
           Seed,       \* data salt and sample selector
@@ -52,7 +52,9 @@ EA(r) == IF "a" \in Uses(r) /\ ~Packed(r) THEN LdExtra ELSE {0}
 EB(r) == IF "b" \in Uses(r) THEN LdExtra ELSE {0}
 EC(r) == IF "c" \in Uses(r) THEN LdExtra ELSE {0}
 Incs  == (-IncMax .. IncMax) \ {0}
-IX(r) == IF r \in L1One THEN 1 .. IncMax ELSE IF "x" \in Uses(r) THEN Incs ELSE {1}
+IX(r) == IF "x" \in Uses(r) THEN Incs ELSE {1}     \* L1One with a negative increment: documented no-ops
+\* the x struct of the wrapper call claims WDN(r) more elements than y (documented panic)
+WDN(r) == IF r \in L1Two THEN {0, 1} ELSE {0}
 IY(r) == IF "y" \in Uses(r) THEN Incs ELSE {1}
 AL(r) == IF r \in {"her", "hpr", "herk", "rscal", "rot", "sdsdot"} THEN RealScalarIdx
          ELSE IF r \in {"axpy", "scal"} \cup GeMV \cup SyMV \cup Rank1 \cup SyR \cup SyR2 \cup Level3 THEN AllScalarIdx
@@ -64,7 +66,7 @@ BE(r) == IF r \in {"herk", "her2k", "rot"} THEN RealScalarIdx
 GridWith(r, M, N, K) ==
     [r : {r}, tA : TA(r), tB : TB(r), ul : UL(r), dg : DG(r), sd : SD(r),
      m : M, n : N, k : K, kl : KLU(r), ku : KLU(r), ea : EA(r), eb : EB(r), ec : EC(r),
-     incx : IX(r), incy : IY(r), sl : Slacks, al : AL(r), be : BE(r)]
+     incx : IX(r), incy : IY(r), sl : Slacks, al : AL(r), be : BE(r), wdn : WDN(r)]
 
 \* the solves double the magnitude of their result with every row: keep their rays short
 RayOf(r) == IF r \in Solves THEN {v \in Ray : v <= 9} ELSE Ray
@@ -113,7 +115,8 @@ Sample(r, f0, i) ==
         kl |-> Nth(KLU(r), H(11)), ku |-> Nth(KLU(r), H(12)),
         ea |-> Nth(EA(r), H(13)), eb |-> Nth(EB(r), H(14)), ec |-> Nth(EC(r), H(15)),
         incx |-> Nth(IX(r), H(16)), incy |-> Nth(IY(r), H(17)), sl |-> Nth(Slacks, H(18)),
-        al |-> Nth(AL(r), H(19)), be |-> Nth(BE(r), H(20))]
+        al |-> Nth(AL(r), H(19)), be |-> Nth(BE(r), H(20)),
+        wdn |-> IF H(21) % 4 = 0 THEN Nth(WDN(r), 1) ELSE 0]
 
 (****************************** parameters *********************************)
 \* the parameter record of BlasRef (strides computed from the minimum plus the extra)
@@ -207,6 +210,7 @@ RotmH(c) == <<c.k - 2, V7("a", 1, 0), V7("a", 2, 0), V7("a", 3, 0), V7("a", 4, 0
 Res(c, pz) == Result(c.r, P(c), Alpha(c), Beta(c), RotmH(c), Inputs(c, pz))
 
 (********************************* emission *********************************)
+PkgsOfDomain == IF Cx THEN {"cblas64", "cblas128"} ELSE {"blas32", "blas64"}
 Case(c) ==
     LET r   == c.r
         p   == P(c)
@@ -218,7 +222,15 @@ Case(c) ==
         hasret |-> "ret" \in DOMAIN res,
         ret |-> IF "ret" \in DOMAIN res THEN res.ret ELSE 0,
         alt |-> QuickReturnLegal(r, p, Alpha(c), Beta(c)),
-        need |-> [o \in Uses(r) |-> NeedOf(r, p, o)]]
+        need |-> [o \in Uses(r) |-> NeedOf(r, p, o)],
+        \* the same call through the typed wrapper packages (BlasWrap.tla): function, structs,
+        \* the call each package forwards, and its documented panic ("" = none)
+        fn |-> WrapFn(r),
+        w |-> WrapArgs(r, p, c.wdn),
+        fwd |-> [pk \in PkgsOfDomain |-> Forward(pk, r, p, WrapArgs(r, p, c.wdn), p.n)],
+        wpanic |-> [pk \in PkgsOfDomain |-> WrapPanics(pk, r, WrapArgs(r, p, c.wdn))],
+        \* gonum documents the result of a negative increment for Izamax / Icamax only
+        skipimpl |-> (r = "iamax" /\ ~Cx /\ p.incx < 0)]
 
 (* Start states (family, chunk); the successors of a start state are grid     *)
 (* points of that family, so that TLC workers evaluate them in parallel.       *)
@@ -296,6 +308,7 @@ CaseOK ==
       LET cs == Case(g)
       IN /\ Exact(cs)
          /\ WriteFootprint(cs)
+         /\ \A pk \in PkgsOfDomain : WrapFaithful(pk, cs.r, cs.p)
          /\ Checks => (PoisonIndependent(cs, g) /\ SolveDefining(cs))
          /\ PrintT(ToJson(cs))
 =============================================================================
